@@ -74,7 +74,8 @@ type descInfo struct {
 	HasKey  bool
 	HasOut  bool
 	Hash    string
-	Guard   int64 // key-length guard constant of Init/NewCrypto (-1 none)
+	KeyArg  string // "" when Init / NewCrypto key the primitive with exactly the key they are given, else why not
+	Guard   int64  // key-length guard constant of Init/NewCrypto (-1 none)
 	Pos     string
 	Err     string
 }
@@ -155,6 +156,7 @@ func (c *Ctx) describe(name string, d *descriptor, site ssa.Instruction) descInf
 									di.Hash = g.String()
 								}
 								di.Guard = c.keyLenGuard(m, call.Block(), d)
+								di.KeyArg = keyArgOf(m, call.Call.Args[1], "hmac.New")
 							}
 						}
 					}
@@ -165,6 +167,7 @@ func (c *Ctx) describe(name string, d *descriptor, site ssa.Instruction) descInf
 						if call, ok := ins.(*ssa.Call); ok {
 							if cal := call.Call.StaticCallee(); cal != nil && cal.String() == "crypto/aes.NewCipher" {
 								di.Guard = c.keyLenGuard(m, call.Block(), d)
+								di.KeyArg = keyArgOf(m, call.Call.Args[0], "aes.NewCipher")
 							}
 						}
 					}
@@ -173,6 +176,31 @@ func (c *Ctx) describe(name string, d *descriptor, site ssa.Instruction) descInf
 		}
 	}
 	return di
+}
+
+// keyArgOf: "" when v, the key handed to the primitive's constructor, is the method's own key parameter (as it
+// is, or sliced over its whole length); otherwise a description: a copy into a buffer of another size, a prefix
+// or any other derived value makes the object compute something else than the algorithm under the given key.
+func keyArgOf(m *ssa.Function, v ssa.Value, ctor string) string {
+	for i := 0; i < 3; i++ {
+		switch x := v.(type) {
+		case *ssa.ChangeType:
+			v = x.X
+			continue
+		case *ssa.Slice:
+			if x.Low == nil && x.High == nil && x.Max == nil {
+				if _, isParam := x.X.(*ssa.Parameter); isParam {
+					v = x.X
+					continue
+				}
+			}
+		}
+		break
+	}
+	if p, ok := v.(*ssa.Parameter); ok && isByteSlice(p.Type()) && p.Parent() == m {
+		return ""
+	}
+	return ctor + " is keyed with " + v.Name() + " (" + strings.TrimSpace(v.String()) + "), not with the key parameter itself"
 }
 
 // keyLenGuard: the constant K such that block b of method m is reached only when len(key param) == K
@@ -239,12 +267,36 @@ func RunC11(c *Ctx, r *Report) {
 	r.Explanation = "Exhaustive over the finite registries: every registered descriptor is evaluated by constant propagation (TransformID, getAttribute, key/output lengths, hash constructor, key-length guards); (1) closure: the identifier's stringifier, run on the descriptor's own attribute, returns the descriptor's name; (2) no foreign mapping: every path of every stringifier that returns a name pins the attribute to that name's own values and the name's descriptor carries that identifier, and the Decode functions return only registry entries reached through that path; (3) IKE and Child registries agree and all lengths equal the RFC reference table; (4) ToTransform marks the attribute TV exactly when present without variable-length value; (5) SA construction fails unless every decoded descriptor is non-nil."
 	r.TrustedBase = append(r.TrustedBase, "go/types and go/ssa (x/tools v0.29.0)", "the checker's constant interpreter for loop-free methods", "reference table transcribed from RFC 7296 / 3602 / 2403 / 2404 / 4868 and the IANA registry")
 	r.Assumptions = append(r.Assumptions, "registries are immutable after init (C18)")
-	r.NotDecided = append(r.NotDecided, "the wire round trip of a transform (slots of C03/C05)", "proposals with more than one transform per type")
+	r.NotDecided = append(r.NotDecided, "the wire round trip of the records around a transform (proposal and SA headers: slots of C03/C05); the Transform record itself is compared with the RFC layout here", "proposals with more than one transform per type")
 	r.Extra["exhaustive"] = true
 	c.registryRules(r, prefix, "")
 	c.saBuildRules(r, prefix)
 	c.saLookupUnconditionalRule(r, prefix)
 	c.tvValueOnlyUnderTVRule(r, prefix+"tv-value-only-under-tv")
+	c.transformWireRule(r, prefix)
+}
+
+// transformWireRule: "converts to a transform that survives the wire": the Transform record of encoder and
+// decoder against the RFC 7296 3.3.2 / 3.3.5 layout (the slot tables of C05, restricted to that record). An
+// attribute type read through a too narrow intermediate maps a foreign attribute (type 14 + 256k) onto Key
+// Length after a wire round trip.
+func (c *Ctx) transformWireRule(r *Report, prefix string) {
+	w := c.slotWorld(r, prefix)
+	if w == nil {
+		return
+	}
+	saved := w.recs
+	w.recs = nil
+	for _, rec := range saved {
+		if rec == "message.Transform" {
+			w.recs = append(w.recs, rec)
+		}
+	}
+	r.Rule(prefix+"transform-wire.encode", "the encoder writes every Transform field (type, identifier, attribute format bit, 15-bit attribute type, TV value / TLV length and value) at the RFC 7296 3.3.2 / 3.3.5 position, width and byte order", 5)
+	w.specCompare(r, prefix+"transform-wire.encode", "encode", w.enc)
+	r.Rule(prefix+"transform-wire.decode", "the decoder reads every Transform field from the RFC position at full width: no bit of the attribute type or identifier is dropped or taken from elsewhere", 5)
+	w.specCompare(r, prefix+"transform-wire.decode", "decode", w.dec)
+	w.recs = saved
 }
 
 // registryRules: the registry rules of C11, for every registry (only == "") or for the registry of one
@@ -328,6 +380,9 @@ func (c *Ctx) registryRules(r *Report, prefix string, only string) {
 					}
 					if row.Hash != "" && ti == 0 && di.Hash != row.Hash {
 						bad = append(bad, fmt.Sprintf("hash constructor %q, RFC says %s", di.Hash, row.Hash))
+					}
+					if ti == 0 && di.KeyArg != "" {
+						bad = append(bad, di.KeyArg)
 					}
 					if rs.TType == 3 && ti == 0 && di.Guard != row.KeyLen {
 						bad = append(bad, fmt.Sprintf("Init accepts key length %d, RFC says %d", di.Guard, row.KeyLen))
@@ -1052,7 +1107,6 @@ func (c *Ctx) calleeGuardsField(gen *ssa.Function, fld string) bool {
 	}
 	return true
 }
-
 
 // isDynResult: v is the stringifier's result, possibly merged with the empty string of the "no stringifier
 // for this identifier" path (a helper that returns "" when the identifier is unknown).
